@@ -6,6 +6,11 @@
 (* the following Load is reported as skipped until the next Save or Reset.                        *)
 EXTENDS Lifecycle, Json, IOUtils, TLC
 
+\* TLC orders record fields by first mention while parsing (root module first): the kind field `k` must come
+\* before the payload fields so that object values of different kinds are unequal without their payloads
+\* ever being compared (a function-valued `v` against a sequence-valued one is a TLC evaluation error).
+KindFirst_Trace_Lifecycle(o) == <<o.k, o.neg, o.v, o.w>>
+
 Recs == ndJsonDeserialize(IOEnv.TRACE)
 
 VARIABLES l, disk, saved, dbytes
